@@ -229,16 +229,25 @@ namespace igris
 
         template <typename... Args> void emplace_back(Args &&... args)
         {
-            reserve(m_size + 1);
-            igris::constructor(m_data + m_size, std::forward<Args>(args)...);
+            if (m_size == m_capacity)
+            {
+                // an argument may refer to an element of this vector: build
+                // the new element before the buffer is replaced
+                T tmp(std::forward<Args>(args)...);
+                reserve(m_size + 1);
+                igris::move_constructor(m_data + m_size, std::move(tmp));
+            }
+            else
+            {
+                igris::constructor(m_data + m_size,
+                                   std::forward<Args>(args)...);
+            }
             m_size++;
         }
 
         void push_back(const T &ref)
         {
-            reserve(m_size + 1);
-            igris::constructor(m_data + m_size, ref);
-            m_size++;
+            emplace_back(ref);
         }
 
         void pop_back()
@@ -278,8 +287,10 @@ namespace igris
         template <typename... Args>
         iterator emplace(const_iterator pos, Args &&... args)
         {
+            // an argument may refer to an element of this vector
+            T tmp(std::forward<Args>(args)...);
             iterator first = open_gap(pos - m_data, 1);
-            new (first) T(std::forward<Args>(args)...);
+            igris::move_constructor(first, std::move(tmp));
             return first;
         }
 
